@@ -109,7 +109,7 @@ JoinedRow(l) == LET r == RowOf(IF tdef = "udef" THEN "vdef" ELSE "plain", l) IN 
 JKeyMain(env) == IF tdef = "numjoin" THEN env["v"] ELSE env["k"]
 JKeyJoined(s) == IF tdef = "numjoin" THEN s[2] ELSE s[1]
 
-BadJoinKind(j) == j \in {"badfile", "badcol", "dirfile"}
+BadJoinKind(j) == j \in {"badfile", "badcol", "dirfile", "badqcol", "badqcolouter"}
 HasLimit == q.limit # NoLimit
 LimitReached == HasLimit /\ nout >= q.limit
 IsAgg == q.kind = "agg"
@@ -291,7 +291,9 @@ Interrupted(at, n) == intr.at = at /\ intr.n = n
 
 \* q.join = "badfile" (the joined file does not exist) / "badcol" (ON names a column the joined table lacks): an error, whatever the input and the LIMIT
 \* "dirfile": the joined path is a directory (it opens, every read fails): the run must end; its outcome is not predicted
-BadJoin == q.join \in {"badfile", "badcol", "dirfile"}
+\* "badqcol" / "badqcolouter": ON names a column the QUERIED table lacks (INNER / OUTER JOIN): an error as well -- also when the joined file is empty and when no
+\* input line is ever admitted (the column is only needed once a line is looked up; the error may not wait for that)
+BadJoin == q.join \in {"badfile", "badcol", "dirfile", "badqcol", "badqcolouter"}
 JoinFails ==
   /\ pc = "loadjoin" /\ BadJoin
   /\ status' = (IF q.join = "dirfile" THEN "unk" ELSE "err") /\ pc' = "done"
